@@ -98,6 +98,21 @@ Proof. reflexivity. Qed.
 Theorem gen_mixed_compare_fact : sh_mixed_compare gen_shape = CmpTypeURL /\ sh_mixed_fold gen_shape = true.
 Proof. split; reflexivity. Qed.
 
+(* the custom quorum / voting period getters return the stored field for every stored entry — the
+   default is used only when no entry exists (so a stored quorum of exactly 0 is a quorum of 0) *)
+Theorem gen_stored_value_or_default : forall P kf cust p,
+  quorum_for_sh gen_shape P kf cust p = quorum_for P kf cust p /\
+  period_for_sh gen_shape P kf cust p = period_for P kf cust p.
+Proof. split; reflexivity. Qed.
+
+Theorem stored_zero_quorum_is_zero : forall P kf cust p cp,
+  lookup (kf_key kf (p_msgs p)) cust = Some cp -> c_quorum cp = 0 ->
+  quorum_for_sh gen_shape P kf cust p = 0.
+Proof.
+  intros P kf cust p cp L Z0. destruct (gen_stored_value_or_default P kf cust p) as [-> _].
+  unfold quorum_for. rewrite L. exact Z0.
+Qed.
+
 (* ------------------------------------------------------------------ the facts matter *)
 Definition with_exec (sh : gov_shape) (plain : bool) (cache_in_loop write_in_loop write_ok : Z) (before on_cache : bool) : gov_shape :=
   {| sh_eb_order := sh_eb_order sh; sh_payout_guard := sh_payout_guard sh;
@@ -112,7 +127,9 @@ Definition with_exec (sh : gov_shape) (plain : bool) (cache_in_loop write_in_loo
      sh_act_inactive_key_deposit_end := sh_act_inactive_key_deposit_end sh;
      sh_act_active_key_voting_end := sh_act_active_key_voting_end sh;
      sh_egf_key := sh_egf_key sh; sh_type_key := sh_type_key sh; sh_tally_checks := sh_tally_checks sh;
-     sh_mixed_compare := sh_mixed_compare sh; sh_mixed_fold := sh_mixed_fold sh |}.
+     sh_mixed_compare := sh_mixed_compare sh; sh_mixed_fold := sh_mixed_fold sh;
+     sh_quorum_default_only_absent := sh_quorum_default_only_absent sh;
+     sh_period_default_only_absent := sh_period_default_only_absent sh |}.
 
 Definition m_ok : msg := {| m_type := 4; m_spend := []; m_act := AOk 7 |}.
 Definition m_bad : msg := {| m_type := 4; m_spend := []; m_act := AFail |}.
